@@ -8,6 +8,10 @@ ABM_TECH = "TLA+ spec (spec/Abm.tla) + TLC exhaustive invariants; TLC-generated 
 SRV_TECH = "TLA+ spec (spec/Server.tla) + TLC exhaustive invariants/action properties; TLC-generated request histories replayed into a real BptkServer (Flask test client, controlled clock, FileAdapter on a scratch directory) with every response compared"
 EXPR_TECH = "TLA+ spec (spec/Expr.tla + spec/Rat.tla: expression trees, exact rational reference semantics, concrete-syntax renderers) enumerated exhaustively by TLC; every enumerated tree evaluated by the implementation and compared with the spec's value"
 CHECKS = {
+ "C05": dict(cat="model_checking", ref="6/C05",
+    text="spec/TimeGrid.tla: the clock of a run / session as a state machine over decimal times scaled by 10^4 (exact start + i*dt); TLC checks Increasing, OnGrid, NoGap, EndsAtStop over the lattice start in {0,1,.5,.1,2.25,10,100.3} x dt in {1,2,.5,.25,.125,.0625,.1,.2,.05,.02,.01,.3,.7} x n and emits every grid; for every grid util.timerange is compared label by label with exact float/repr equality against the decimal literal, and for a seeded subset the index of run_scenarios (df), the keys of dict and json results, Element.plot(return_df=True), run_step keys, session_results keys, a scenario reaching the same grid through runspecs on a coarser model, the stock values (one integration step per interval) and three arithmetic routes to every grid point (i*dt, repeated addition, stop - j*dt) which must hit the same memo cell",
+    note="decimals with <= 4 digits; stop on the grid; sessions begun with the model's dt",
+    tech="TLA+ spec + TLC exhaustive lattice enumeration; every enumerated grid replayed into the implementation's observation points with exact label comparison"),
  "C02": dict(cat="model_checking", ref="6/C02",
     text="spec/Expr.tla: TLC enumerates every (outer operator, operand position, inner operator) nesting of + - * / ** % and the six comparisons with element and literal operands (both operand orders, so __radd__/__rsub__/__rmul__ routes are taken), unary minus, abs/sqrt/exp/round/min/max wrappers inside and around operators, If/And/Or/Not forms, depth-3 associativity chains and the complete depth-2 enumeration (353k trees; sampled in the quick tier, exhaustive in the thorough tier), each with its exact rational value in 5 operand environments chosen so that every pair of groupings differs (TLC-checked: Separates); the fully parenthesised Python text of each tree is evaluated over real DSL constants and the converter value compared",
     note="reference undefined (skipped, counted) at discontinuities; a nesting the DSL rejects with an exception conforms; array aggregates are covered under C10",
